@@ -64,9 +64,9 @@ var BaseStrategies = []*StratEntity{
 	{Name: "trend.Dema", NCfg: 2, Make: func(c []int) strategy.Strategy {
 		s := st.NewDemaStrategy()
 		if c != nil {
-			p := sorted(c)
-			s.Dema1.Ema1.Period, s.Dema1.Ema2.Period = p[0], p[0]
-			s.Dema2.Ema1.Period, s.Dema2.Ema2.Period = p[1], p[1]
+			// no order between the two DEMAs is documented or needed: either may be the slower one
+			s.Dema1.Ema1.Period, s.Dema1.Ema2.Period = c[0], c[0]
+			s.Dema2.Ema1.Period, s.Dema2.Ema2.Period = c[1], c[1]
 		}
 		return s
 	}},
